@@ -6,7 +6,7 @@ PATCH=$1; PROP=$2
 cd /repo || exit 2
 if ! git diff --quiet; then echo "/repo has local modifications, refusing"; exit 2; fi
 git apply "$PATCH" || { echo "patch does not apply"; exit 2; }
-trap 'git -C /repo checkout -q -- . ' EXIT
+trap 'git -C /repo checkout -q -- . ; git -C /repo clean -fdq' EXIT
 mkdir -p /tmp/seeded_eval_verif; cp /verif/known_findings.json /tmp/seeded_eval_verif/
 for tier in quick thorough; do
   /verif/bin/templvet -repo /repo -verif /tmp/seeded_eval_verif -property "$PROP" -tier $tier > /tmp/seeded_eval.out 2>&1; rc=$?
